@@ -88,6 +88,21 @@ CLAIMED = {
    technique="computed mutator set (differential run on a read-write twin) over entry points enumerated by reflection, exhaustive interleaving exploration of the replication applier against client mutators, and role reporting of the real replication manager in its three modes",
    text="Every entry point of *EngineFacade, Transaction and *KevoServiceServer (27 bodies; a new method without body or recorded exclusion is a HARNESS-ERROR) is run on a read-write twin and on the same state in read-only mode: calls that change scan or log on the twin (12 mutators) must return a read-only error and change nothing on the replica, the *Internal bypasses must still take effect, reads must work. The applier (2 replicated entries) is explored against client Put/Delete/BatchWrite over all interleavings up to 2 (3) deviations. replication.Manager is started in standalone/primary/replica mode: GetNodeInfo must report role, primary address and read_only truthfully and a started replica must reject client writes.",
    note="The window inside Manager.Start before the read-only switch is not flagged. The manager unit uses real loopback listeners."),
+ "C13": dict(
+   level="model_checking", design="§3 C13, §2.5",
+   technique="exhaustive enumeration of fault schedules (drop, duplicate, reorder, connection break on the first 10 stream messages, <=1 / <=2 faults) over deterministic fair executions of the real Primary and Replica in discrete-event virtual time, with a recording applier as oracle",
+   text="The real replication.Primary (on a real engine, observer + poll + heartbeat loops) and the real replication.Replica (state machine, batch applier, engine applier on a second read-only engine) run over an in-memory link that replaces gRPC (bounded window, message copying, connection semantics). 16 scenarios (single writes incl. delete, a 3-entry transaction, flushes with log rotation; replica joins before/during/after the writes or is restarted; default and uncompressed configuration) x every fault vector within the bound: the sequence of entries handed to the replica's engine must equal the primary's log in order, none skipped, none applied twice; the reported applied sequence never decreases nor exceeds the highest applied entry.",
+   note="Timer races are not explored in these runs (due-time order). One open known finding (restart re-applies the history)."),
+ "C14": dict(
+   level="model_checking", design="§3 C14, §2.5",
+   technique="the same exhaustive fault-schedule enumeration over fair discrete-event executions of the real Primary and Replica, with a convergence oracle",
+   text="For every scenario x fault vector of C13: 20 virtual seconds after the last write, with the writer stopped and no further faults, the replica's visible state (full scan of its engine) equals the primary's and is still equal 5 s later; primary writes never fail.",
+   note="'Bounded time' = 20 s of virtual time under the fair continuation; loopback latency is not modelled."),
+ "C15": dict(
+   level="model_checking", design="§3 C15",
+   technique="stateless interleaving exploration (deviation bound 1 quick / 2 thorough, happens-before caching) of client calls on a primary with misbehaving replica sessions, deadlock detection by the scheduler; plus a discrete-event run for topology changes",
+   text="The real Primary on a real engine with replica sessions over an in-memory stream of bounded window: a replica that never reads (window 1) while clients put/get/commit, and a healthy acknowledging replica whose poll loop runs (ticker as environment event) while clients write. In every explored schedule every client call must return nil; a client thread waiting - directly or through a lock chain - on a stream send or on a lock held by a replication thread is reported as the scheduler's deadlock witness with the blocked call sites. A discrete-event run with one stalled and one healthy replica checks that 45 writes finish, the stalled session leaves GetReplicaInfo after the heartbeat timeout and the healthy one received everything.",
+   note="'Normal time' is decided as absence of a blocking dependency on the replica, not as a latency figure. gRPC flow control = bounded in-memory window."),
 }
 
 ALL = ["C%02d" % i for i in range(1, 21)]
